@@ -1,8 +1,9 @@
 import VlsModel.Drv.Common
-/- Line-protocol models serving property C04 (none yet). -/
+import VlsModel.Drv.Bolt3
+/- Line-protocol models serving property C04. -/
 namespace VlsModel.Drv.C04
 open VlsModel.Drv
 
-def models : List (String × Model) := []
+def models : List (String × Model) := [ ("bolt3", Bolt3.model) ]
 
 end VlsModel.Drv.C04
